@@ -38,7 +38,14 @@ EXTRA_TEMPLATES = [
     ("a(i) = b(i,j,k,l) * c(j) * d(k) * e(l)", [{"b": "dsss"}]),
     ("a() = b(i,j,k) * c(i,j,k) + d(i,j,k) * e(i,j,k)", [{"b": "sss", "c": "sss", "d": "sss", "e": "sss"}]),
     ("a(i) = b(i,j) * c(j) + d(i,k) * e(k)", [{"b": "ds", "d": "ds"}]),
-    ("o() = X() + Y(k) + Z(k)", []),
+    # sensitive to where a contraction may be hoisted (repair 51a0a5b), and forcing distribution
+    ("o() = X() + Y(k) + Z(k)", [{"Y": "s", "Z": "s"}]),
+    ("o() = (Y(k) + X()) * (Z(k) + E())", []),
+    ("o() = (Y(k) - X()) * (Z(k) - E())", [{"Y": "s", "Z": "s"}]),
+    ("o(i) = V(i,k) * Y(k) + W(i) + U(i,k)", [{"V": "ds", "U": "ds"}]),
+    ("o(i) = (V(i,k,l) + W(i)) * (Y(k,l) + U(i))", []),
+    ("o() = (Y(k) + X()) * Z(k)", []),
+    ("o() = 2 * (Y(k) - X()) * (Z(k) + 3)", []),
     ("a(i) = b(i,j) + c(i,k)", []),
     ("a(i,j) = b(i,j,k,l,m) * c(k,l,m)", []),
     ("a(i) = (b(i,j) * c(j,k)) * (d(k,l) * e(l))", []),
@@ -127,11 +134,15 @@ def bases(chk: Check, rng):
                                            "a(i,j) = b(i,j,k,l,m) * c(k,l,m)", "a(i) = (b(i,j) * c(j,k)) * (d(k,l) * e(l))",
                                            "A(i,j) = B(i,k) * C(k,l) * D(l,j)", "a(i) = b(i,j,k) * c(j) * d(k)",
                                            "a(i) = b(i,j,k)", "a() = b(i,j,k)", "a() = b(i,j) - c(i,j)", "a(i) = b(i,j,k) + c(i)",
-                                           "a() = b(i,j) + c(k,l)", "a(i) = b(i,j,k) * c(i) + d(i,l,m)")]
+                                           "a() = b(i,j) + c(k,l)", "a(i) = b(i,j,k) * c(i) + d(i,l,m)",
+                                           "o() = X() + Y(k) + Z(k)", "o() = (Y(k) + X()) * (Z(k) + E())",
+                                           "o() = (Y(k) - X()) * (Z(k) - E())", "o(i) = V(i,k) * Y(k) + W(i) + U(i,k)",
+                                           "o(i) = (V(i,k,l) + W(i)) * (Y(k,l) + U(i))", "o() = (Y(k) + X()) * Z(k)",
+                                           "o() = 2 * (Y(k) - X()) * (Z(k) + 3)")]
         out = must + [b for b in out if b not in must]
-        head, tail = out[:30], out[30:]
+        head, tail = out[:len(must)], out[len(must):]
         rng.shuffle(tail)
-        out = head + tail[:34]
+        out = head + tail[:max(0, 64 - len(head))]
     return out
 
 
